@@ -206,6 +206,61 @@ func C13(c *fw.Ctx) {
 		}
 	}
 	c.Bound("examples", len(files))
+	// G: programs that read their input through either name of the input built-in, in every sequence
+	// of up to three reads, on every input of a small pool: one outcome whatever sizes the reads of
+	// stdin are answered with (three default answers, up to two deviating reads each)
+	{
+		readers := []string{model.BiInput, model.BiInputLatin}
+		inputs := []string{"x\ny\nz\n", "x\ny", "x\n", "", "\n\n", "x\r\ny\r\nz", "one two\n\nthree\n"}
+		for n := 1; n <= 3; n++ {
+			for code := 0; code < 1<<uint(n); code++ {
+				for prompt := 0; prompt < 2; prompt++ {
+					var sb strings.Builder
+					for k := 0; k < n; k++ {
+						arg := ""
+						if prompt == 1 {
+							arg = "\"?\""
+						}
+						fmt.Fprintf(&sb, "%s \"r%d=\" + %s(%s);\n", model.KwPrint, k, readers[(code>>uint(k))&1], arg)
+					}
+					sb.WriteString(model.KwPrint + " \"end\";\n")
+					for _, in := range inputs {
+						if !c.Mine() {
+							continue
+						}
+						var firstKey string
+						var firstSched []int
+						firstMode := -1
+						for mode := 0; mode < 3; mode++ {
+							exploreReads(c, sb.String(), in, mode, 2, func(sched []int, o h.Outcome) {
+								c.Eval(fmt.Sprint(mode, sched)+sb.String()+in, true)
+								c.R.States++
+								c.R.Transitions++
+								base := fw.Replay{Mode: "file", Program: sb.String(), Stdin: in, Choices: sched, StdinSch: true, StdinMode: mode, CLI: false, InStdout: o.Stdout, InStderr: o.Stderr, InStatus: o.Status}
+								if abnormal(c, o, "file", sb.String(), base) {
+									return
+								}
+								key := fmt.Sprintf("%d\x00%s\x00%s", o.Status, o.Stdout, o.FirstDiag())
+								c.Outcome(key)
+								if firstMode < 0 {
+									firstKey, firstSched, firstMode = key, sched, mode
+									return
+								}
+								if key != firstKey {
+									r := base
+									r.Sig = "C13|outcome-differs|input-delivery"
+									r.What = "the same program on the same input bytes differs with the sizes in which reads of stdin are answered"
+									r.Expected = fmt.Sprintf("default answer %d schedule %v: %q", firstMode, firstSched, trunc(firstKey, 300))
+									r.Observed = fmt.Sprintf("default answer %d schedule %v: %q", mode, sched, trunc(key, 300))
+									c.Violate(r)
+								}
+							})
+						}
+					}
+				}
+			}
+		}
+	}
 	// F: the same program executed several times in ONE process (as successive lines of one
 	// interactive session) responds identically every time
 	replLines := []string{
